@@ -57,7 +57,9 @@ def count_of(root, dom):
         return z3.IntVal(0)
     if isinstance(root, KeySpace) and not root.keys:
         return z3.If(dom, z3.IntVal(1), z3.IntVal(0))  # the universe of the empty key tuple has one element
-    key = (root.name, dom.get_id())
+    from .values import tid
+
+    key = (root.name, tid(dom))
     if key not in _COUNTS:
         # count congruence: a domain that is (propositionally / theory-) equivalent to a known one shares its symbol
         for (rn, _), (c, d2) in list(_COUNTS.items()):
@@ -73,15 +75,29 @@ def count_of(root, dom):
     return _COUNTS[key][0]
 
 
-def count_witness(ctx, root, dom):
-    """ghost: |{u : dom(u)}| != 0 => a witness row; the generic rows in dom => the count is >= 1"""
+def count_witness(ctx, root, dom, rows=()):
+    """ghost: |{u : dom(u)}| != 0 => a witness row; a row in dom (the generic rows and `rows`) => the count is >= 1"""
     _use("count_witness (a non-empty finite set has an element; a set with an element has cardinality >= 1)")
     c = count_of(root, dom)
-    w = z3.Int(fresh_name("cntwit"))
-    ctx.assume(z3.Implies(c != 0, z3.And(w >= 0, w < root.n, z3.substitute(dom, (root.u, w)))))
-    for g in (root.u, root.u2):
+    reg = ctx.__dict__.setdefault("_count_wit", {})
+    from .values import tid
+
+    key = (root.name, tid(z3.simplify(dom)))
+    if key not in reg:
+        w = z3.Int(fresh_name("cntwit"))
+        ctx.assume(z3.Implies(c != 0, z3.And(w >= 0, w < root.n, z3.substitute(dom, (root.u, w)))))
+        reg[key] = w
+    w = reg[key]
+    for g in (root.u, root.u2) + tuple(rows):
         ctx.assume(z3.Implies(z3.And(g >= 0, g < root.n, z3.substitute(dom, (root.u, g))), c >= 1))
     return w
+
+
+def lemma_count_mono(ctx, root, small, big, name="count_mono"):
+    """|A| <= |B| for A a subset of B (side condition: A(u) => B(u) for the generic row)"""
+    _use("count_mono (Finset.card_le_card)")
+    ctx.oblige(name + "/side.subset", z3.Implies(z3.And(*root.facts(), small), big), kind="lemma-side")
+    ctx.assume(count_of(root, small) <= count_of(root, big))
 
 
 def count_facts():
@@ -307,6 +323,9 @@ class Frame:
         if not isinstance(val, V):
             if hasattr(val, "as_v"):
                 val = val.as_v()
+            elif val is None:
+                _use("DataFrame[c] = None: a column of nulls")
+                return V(z3.RealVal(0), (self.axis,), self.index, z3.BoolVal(True))
             else:
                 _use("DataFrame[c] = scalar: constant column")
                 return V(to_term(val), (self.axis,), self.index)
@@ -459,7 +478,9 @@ _RANKS = {}
 
 
 def rank_fn(ax):
-    key = (ax.root.name, ax.doms[0].get_id(), str(ax.order))
+    from .values import tid
+
+    key = (ax.root.name, tid(ax.doms[0]), str(ax.order))
     if key not in _RANKS:
         _RANKS[key] = z3.Function(fresh_name("rank"), z3.IntSort(), z3.IntSort())
     return _RANKS[key]
@@ -1056,7 +1077,20 @@ def _m_index(self, interp):
     return IndexSel(*sf)
 
 
+def _m_astype(self, interp):
+    def astype(dtype=None, **kw):
+        if isinstance(dtype, dict) and all(v is float or getattr(v, '__name__', '') in ('float', 'py_float') for v in dtype.values()) and not kw:
+            for k in dtype:
+                self.col(k)
+            _use("DataFrame.astype({col: float}): the same values as floats (null stays null)")
+            return self._new()
+        raise Undecided("DataFrame.astype form")
+
+    return astype
+
+
 _FRAME_METHODS = {
+    "astype": _m_astype,
     "reset_index": _m_reset_index,
     "copy": _m_copy,
     "shape": _m_shape,
@@ -1123,7 +1157,9 @@ class GroupBy:
     def _present(self, gs, segs):
         """uninterpreted presence predicate with its defining instances"""
         ctx = self.interp.ctx
-        key = tuple(s.get_id() for s in segs) + (gs.name,)
+        from .values import tid
+
+        key = tuple(tid(s) for s in segs) + (gs.name,)
         reg = ctx.__dict__.setdefault("_present", {})
         if key in reg:
             return reg[key]
@@ -1270,7 +1306,9 @@ def presence_instances(ctx, root, point, rows=(), rounds=2):
             subs = [(kv, point[str(kv)[3:]]) for kv in kvs]
         except KeyError:
             continue
-        key = (p.decl().name(), tuple(t.get_id() for _, t in subs))
+        from .values import tid
+
+        key = (p.decl().name(), tuple(tid(t) for _, t in subs))
         if key in cache:
             wits.append(cache[key])
             continue
